@@ -504,6 +504,8 @@ class ProgGen:
             choices += ["reset_same_const"]
         if depth < 2:
             choices += ["single_pass_for", "twin_ifs"]
+        if getattr(self, "busy_helper", None) and not self.in_function and depth < 3:
+            choices += ["busy_wait"] * 2
         if [f for f in self.funcs if f.ret == "int" and not f.pure] and not self.in_function:
             choices += ["empty_arms_call"]
         if self.use_led and self.leds and getattr(self, "led_helpers", None) and not self.in_function:
@@ -862,6 +864,15 @@ class ProgGen:
         self.observe(v)
         self.emit(f"{name} = {k}")
         self.observe(v)
+
+    def s_busy_wait(self, depth):
+        """A wait loop whose body is empty (pass / a host-only print): the condition - a helper with an effect - is still evaluated
+        until it fails."""
+        fn, cv = self.busy_helper
+        self.feat("busy-wait-empty-body")
+        self.emit(f"while {fn}() % {self.r.randint(2, 4)} != 0:")
+        self.emit("    " + self.r.choice(["pass", "pass", 'print("waiting")']))
+        self.observe(cv)
 
     def s_twin_ifs(self, depth):
         """Two adjacent ifs with the very same condition; the first changes the tested name only inside a nested block: the
@@ -1357,6 +1368,19 @@ class ProgGen:
                     self.feat("hz:uncalled-helper")
                     continue
                 self.call_once(f)
+        self.busy_helper = None
+        if self.use_funcs and self.chance(0.4):
+            # a counter advanced by a helper: waited on with an EMPTY loop body further down
+            cnt = self.fresh("cnt")
+            fn = self.fresh("bump")
+            self.emit(f"{cnt} = 0")
+            cv = self.declare(cnt, "int", ro=True)
+            self.emit(f"def {fn}():")
+            self.emit(f"    global {cnt}")
+            self.emit(f"    {cnt} += 1")
+            self.emit(f"    return {cnt}")
+            self.emit("")
+            self.busy_helper = (fn, cv)
         self.led_helpers = []
         if self.use_led and self.leds and self.chance(0.5):
             led, _pin = r.choice(self.leds)
